@@ -252,6 +252,14 @@ func shapeDoc(f M, did string) *didtypes.DIDDocument {
 		doc.Contexts = &didtypes.JSONStringOrStrings{w3c, ""}
 	case "w3c_x":
 		doc.Contexts = &didtypes.JSONStringOrStrings{w3c, "https://x.example/ctx"}
+	case "w3c_x_y":
+		doc.Contexts = &didtypes.JSONStringOrStrings{w3c, "https://x.example/ctx", "https://y.example/ctx"}
+	case "w3c_x_w3c":
+		doc.Contexts = &didtypes.JSONStringOrStrings{w3c, "https://x.example/ctx", w3c}
+	case "w3c_x_y_x":
+		doc.Contexts = &didtypes.JSONStringOrStrings{w3c, "https://x.example/ctx", "https://y.example/ctx", "https://x.example/ctx"}
+	case "x_w3c":
+		doc.Contexts = &didtypes.JSONStringOrStrings{"https://x.example/ctx", w3c}
 	case "emptylist":
 		doc.Contexts = &didtypes.JSONStringOrStrings{}
 	}
